@@ -67,6 +67,7 @@ structure RLocus where
   deriving DecidableEq, Repr
 
 structure RRef where
+  number : Str := []                 -- the reference's own number (any blank-free token); absent: its position
   range : Str := []
   authors : Str := []
   title : Str := []
@@ -247,13 +248,16 @@ def gapped (ps : List (Nat × Str)) : Str := (ps.map fun p => spaces (p.1 + 1) +
 def locusLine (l : RLocus) (ℓ : RecLayout) : Str :=
   c!"LOCUS" ++ gapped (locusToks l ℓ) ++ spaces ℓ.locusTrail
 
+/-- the number written for the reference at position `i`: its own when it states one, else the position -/
+def refNumber (i : Nat) (r : RRef) : Str := if r.number = [] then ofNat (i + 1) else r.number
+
 /-- text of the REFERENCE line: the number and, after two blanks, the range -/
 def refHead (i : Nat) (r : RRef) : Str :=
-  ofNat (i + 1) ++ (if r.range = [] then [] else c!"  " ++ r.range)
+  refNumber i r ++ (if r.range = [] then [] else c!"  " ++ r.range)
 
 /-- the REFERENCE line (with its continuation lines when the range is wrapped) -/
 def refHeadLines (i : Nat) (r : RRef) (ℓ : RefLayout) : List Str :=
-  if ℓ.trailGap = true ∧ r.range = [] then [padRight c!"REFERENCE" 12 ++ ofNat (i + 1) ++ c!"  "]
+  if ℓ.trailGap = true ∧ r.range = [] then [padRight c!"REFERENCE" 12 ++ refNumber i r ++ c!"  "]
   else block c!"REFERENCE" (refHead i r) ℓ.range
 
 def refLines (i : Nat) (r : RRef) (ℓ : RefLayout) : List Str :=
@@ -399,7 +403,7 @@ def toLocus (l : RLocus) : Genbank.Locus :=
 
 def toRefs : Nat → List RRef → List Genbank.Reference
   | _, [] => []
-  | i, r :: rs => { index := ofNat (i + 1), authors := r.authors, title := r.title, journal := r.journal
+  | i, r :: rs => { index := refNumber i r, authors := r.authors, title := r.title, journal := r.journal
                     pubmed := r.pubmed, remark := r.remark, range := r.range } :: toRefs (i + 1) rs
 
 def toFeature (f : RFeature) : Genbank.Feature := { type := f.key, gbkLoc := f.loc, attrs := f.quals }
@@ -441,15 +445,17 @@ def wfLocus (l : RLocus) : Bool :=
   isLocusName l.name && l.len.all isDigit && (l.mol == [] || molTypes.contains l.mol)
     && (l.division == [] || divisionCodes.contains l.division) && (l.date == [] || isDateText l.date)
 
+/-- printable and not blank -/
+def isVisible (c : Char) : Bool := isPrint c && c != ' '
+
+/-- the reference's own number, when stated, is any blank-free printable token (the parser keeps the first
+word of the REFERENCE line as text: gaps, repeats, `0`, letters are all read back as written) -/
 def wfRef (r : RRef) : Bool :=
-  isText r.range && isText r.authors && isText r.title && isText r.journal && isText r.pubmed && isText r.remark
+  r.number.all isVisible && isText r.range && isText r.authors && isText r.title && isText r.journal && isText r.pubmed && isText r.remark
 
 def reservedKeys : List Str :=
   [c!"LOCUS", c!"DEFINITION", c!"ACCESSION", c!"VERSION", c!"KEYWORDS", c!"SOURCE", c!"REFERENCE",
    c!"FEATURES", c!"ORIGIN", c!"ORGANISM", c!"AUTHORS", c!"TITLE", c!"JOURNAL", c!"PUBMED", c!"REMARK"]
-
-/-- printable and not blank -/
-def isVisible (c : Char) : Bool := isPrint c && c != ' '
 
 /-- an extra keyword: a blank-free word of at most 11 columns that begins with a letter and is none of
 the keywords the format reserves -/
